@@ -191,6 +191,25 @@ def part_parser(ctx, i):
     used_job = ScriptJob()
     for k, text in enumerate(texts):
         want_prog = compile_result(Parser(), text)[2]
+        blank_before = k > 0 and rng.random() < 0.15
+        if blank_before:
+            # a text that compiles to nothing (blank, a comment) is a run like
+            # any other: it starts from a clean slate and uses up a stop
+            # request that arrived while the job was idle
+            stop_first = rng.random() < 0.6
+            if stop_first:
+                used_job.request_stop()
+            try:
+                used_job.load_string(rng.choice(['', '   ', '# nothing\n',
+                                                 '\n\n', '#']))
+                env.reset_monitors()
+                used_job.execute()
+            except Exception as ex:
+                ctx.violation('job-reload:blank-text-raised', repr(ex),
+                              {'part': 'job-reload', 'texts': texts})
+                break
+            ctx.count('blank_texts_executed' + (
+                '_after_idle_stop' if stop_first else ''))
         try:
             used_job.load_string(text)
         except Exception as ex:
@@ -224,7 +243,7 @@ def part_parser(ctx, i):
                               '{} | {!r}'.format(evs[:2], text[:200]),
                               {'part': 'job-reload', 'texts': texts})
                 break
-        elif k and rng.random() < 0.5:
+        elif k and (blank_before or rng.random() < 0.5):
             # an accepted text runs on the used job exactly as on a fresh one
             # (bounded: generated programs are finite, probes are short)
             reset_devices(pop)
